@@ -108,6 +108,7 @@ def step (line : String) : String :=
     | "sgi", [a, b] => match intsOf [a, b] with | some [a, b] => fin toString (fromF sub a b) | _ => bad
     | "sgs", [a, b] => match unhex a, unhex b with | some a, some b => fin hx (fromF concat a b) | _, _ => bad
     | "moi", [e, a, b] => match intsOf [e, a, b] with | some [e, a, b] => monLine toString (monoidFromOp e sub) a b | _ => bad
+    | "mmi", [e, a, b] => match intsOf [e, a, b] with | some [e, a, b] => monLine toString (monoidFrom e (fromF sub)) a b | _ => bad
     | "mfi", [e, a, b] => match intsOf [e, a, b] with | some [e, a, b] => monLine toString (monoidFrom e (fromF sub)) a b | _ => bad
     | "mos", [e, a, b] => match unhex e, unhex a, unhex b with
       | some e, some a, some b => monLine hx (monoidFromOp e concat) a b | _, _, _ => bad
